@@ -46,6 +46,8 @@ type Outcome struct {
 	Tail     *Closure
 	TailArgs []Value
 	OnReturn func(st *State, res Value) Value
+	// Exhaustive: the alternatives' conditions cover every case.
+	Exhaustive bool
 }
 
 type Intrinsic func(e *Exec, st *State, ci *CallInfo) Outcome
@@ -172,7 +174,7 @@ func (e *Exec) finishIntrinsic(st *State, fr *Frame, x *ssa.Call, out Outcome, i
 				deliver(s, v)
 			}})
 		}
-		if !e.forkAlts(st, alts, st.Forks) {
+		if !e.forkAltsX(st, alts, out.Exhaustive) {
 			e.endPath(st, EndInfeasible)
 		}
 	case OutTail:
